@@ -6,3 +6,5 @@ CHECK_DEADLOCK FALSE
 CONSTANTS
   VerOf <- MC_VerOf
   TsOf <- MC_TsOf
+  RKey <- MC_RKey
+  PKey <- MC_PKey
